@@ -235,3 +235,26 @@ func VerifH_C02_Reach() {
 	vCover("end")
 	vAssert(err != nil || v != e.commits[0].inc+e.commits[1].inc, "reach-twin")
 }
+
+// VerifH_C05_MergeFaults — C05.O1 for the merge of a remote commit: any failing store or block-load operation
+// while the real walk + merge of a two-commit history runs makes the delivery report an error; without a
+// fault it succeeds. conf: kind, window
+func VerifH_C05_MergeFaults() {
+	e := vNewEnv(vConfInt("kind"), true)
+	e.vDAG(2, -1)
+	e.build()
+	// the receiver has merged the genesis commit; the update arrives
+	_, err := e.deliver(0)
+	vAssert(err == nil, "setup-deliver-genesis")
+	f := &vFaults{window: vConfInt("window"), max: 2}
+	e.faults = f
+	e.txn.data.faults, e.txn.head.faults, e.txn.system.faults = f, f, f
+	_, err = e.deliver(1)
+	e.faults = nil
+	e.txn.data.faults, e.txn.head.faults, e.txn.system.faults = nil, nil, nil
+	vCover("ran")
+	vAssert(vImplies(f.injected > 0, err != nil), "fault-propagates")
+	vAssert(vImplies(f.injected == 0, err == nil), "no-fault-no-error")
+	vAssert(f.count <= f.window, "window-covers-all-store-operations")
+	vObserve("ops", f.count)
+}
